@@ -46,7 +46,7 @@ impl Distribution for DiscreteUniform {
     type Output = f64;
     /// Samples from the given discrete uniform distribution.
     fn sample(&self) -> f64 {
-        alea::i64_in_range(self.lower, self.upper) as f64
+        (self.lower + alea::i64_less_than(self.upper - self.lower + 1)) as f64
     }
 }
 
